@@ -49,6 +49,7 @@ F0 = Fraction(0)
 def lap_graph(rng, n, shift):
     """weighted graph Laplacian of a connected random graph + shift*I"""
     W = [Fraction(1, 2), Fraction(1), Fraction(1), Fraction(2), Fraction(3)]
+    if rng.random() < 0.25: W = W + [Fraction(1, 2 ** 24), Fraction(1, 2 ** 24), Fraction(3, 2 ** 30)]     # couplings 1e-7 .. 1e-9 of the others
     E = {}
     for i in range(1, n):
         j = rng.randrange(max(0, i - 6), i)          # spanning tree with local edges
@@ -99,7 +100,7 @@ def gen_matrix(rng, kind, n):
         T = lap_graph(rng, n, rng.choice([Fraction(1, 4), Fraction(1), Fraction(1, 16), 0]))
     elif kind == "grid":
         nx = rng.randint(3, max(3, int(n ** 0.5) + 2)); ny = max(1, n // nx); n = nx * ny
-        T = grid(rng, nx, ny, rng.choice([Fraction(1), Fraction(1, 4), Fraction(1, 16)]), rng.random() < 0.3)
+        T = grid(rng, nx, ny, rng.choice([Fraction(1), Fraction(1, 4), Fraction(1, 16), Fraction(1, 2 ** 24), Fraction(1, 2 ** 27)]), rng.random() < 0.3)
     elif kind == "convdiff":
         if rng.random() < 0.4: nx, ny = n, 1
         else:
